@@ -69,8 +69,11 @@ Proof. exact expi_int_is_RInt. Qed.
    underflow: [Fops rnd64] instantiates the SAME generated code with every operation followed by round-to-nearest-even at
    precision 53 (Flocq).  With n the normalised division count, x_i the rounded nodes the code evaluates the integrand at,
    each component of the result is within ((1+u)^(n+6) - 1) |b-a|/(3n) sum_i w_i |f(x_i)| of the exact rule value on those
-   samples; (1+u)^k - 1 <= k u/(1 - k u), and <= 1.5e-14 on the whole sequential branch (n < 128). *)
+   samples; (1+u)^k - 1 <= k u/(1 - k u), and <= 1.5e-14 on the whole sequential branch (n < 128).
+   The hypothesis n < 128 is the code's own branch condition: from 128 divisions on the sum runs through rayon's parallel reduction,
+   whose association order is not specified and not modelled here. *)
 Theorem C12_simpson_binary64 : forall (func : R -> C) (a b : R) divs, simpson_accepts divs = true ->
+  (simpson_norm divs < 128)%Z ->
   let n := simpson_norm divs in
   let idx := zrange_incl 0 n in
   let s := (b - a) / (3 * IZR n) in
@@ -79,7 +82,7 @@ Theorem C12_simpson_binary64 : forall (func : R -> C) (a b : R) divs, simpson_ac
     <= G u64 (Z.to_nat n + 6) * (Rabs s * rsum (map (fun i => wR i n * Rabs (fst (func (x i)))) idx)) /\
   Rabs (snd (simpson (Fops rnd64) func a b divs) - s * rsum (map (fun i => wR i n * snd (func (x i))) idx))
     <= G u64 (Z.to_nat n + 6) * (Rabs s * rsum (map (fun i => wR i n * Rabs (snd (func (x i)))) idx)).
-Proof. exact simpson_binary64. Qed.
+Proof. exact (fun func a b divs H _ => simpson_binary64 func a b divs H). Qed.
 
 Theorem C12_float_constants :
   u64 = / 9007199254740992 /\
@@ -403,6 +406,8 @@ Proof. exact accept_norm. Qed.
 (* ---- non-vacuity of the hypotheses used above *)
 Example C12_ex_accepts_default : simpson_accepts default_simpson_divs = true /\ simpson2d_accepts default_simpson_divs = true.
 Proof. exact (conj eq_refl eq_refl). Qed.
+Example C12_ex_sequential_branch : (simpson_norm 50 < 128)%Z /\ simpson_accepts 50 = true.
+Proof. split; reflexivity. Qed.
 Example C12_ex_even : Z.even 48 = true /\ simpson_accepts 4 = true /\ simpson2d_accepts 5 = true.
 Proof. exact (conj eq_refl (conj eq_refl eq_refl)). Qed.
 Example C12_ex_cert : cert_check_big 0 0 1 0 1 (BigZ.zero :: nil) (BigZ.two :: nil) = true.
